@@ -279,6 +279,9 @@ func runC13(rc *RunCtx) {
 		opts = append(opts, "-H")
 	}
 	input := cleanInput(seqs)
+	// size of the batches of obiclean's internal annotation stage (hard-wired to 1000 in the
+	// shipped code): with the default no data set of the harness spans two batches
+	annotBatch := []int{0, 1, 2, 3, 7}[t.Choose(5)]
 	run := func(tag string, cfg parCfg) (*CmdOutcome, []parsedRec, string) {
 		dir := filepath.Join(rc.Dir, fmt.Sprintf("c%d-%s", rc.Index, tag))
 		os.MkdirAll(dir, 0755)
@@ -288,7 +291,11 @@ func runC13(rc *RunCtx) {
 		args := []string{"--max-cpu", fmt.Sprint(cfg.MaxCPU), "--batch-size", fmt.Sprint(cfg.BatchSize)}
 		args = append(args, opts...)
 		args = append(args, "-o", filepath.Join(dir, "out.fasta"), in)
-		co := rc.RunCmd(CmdSpec{Name: "obiclean", Args: args, Dir: dir, PoolPolicy: cfg.Pool, YieldDensity: cfg.Yield, Policy: cfg.Policy})
+		spec := CmdSpec{Name: "obiclean", Args: args, Dir: dir, PoolPolicy: cfg.Pool, YieldDensity: cfg.Yield, Policy: cfg.Policy}
+		if tag == "test" && annotBatch > 0 {
+			spec.Knobs = map[string]int{"batch": annotBatch}
+		}
+		co := rc.RunCmd(spec)
 		raw, _ := os.ReadFile(filepath.Join(dir, "out.fasta"))
 		recs, err := parseObiFasta(raw)
 		if err != nil {
@@ -296,7 +303,7 @@ func runC13(rc *RunCtx) {
 		}
 		return co, recs, ""
 	}
-	rc.Out.Sample = map[string]any{"sequences": len(seqs), "options": opts, "config": p.String()}
+	rc.Out.Sample = map[string]any{"sequences": len(seqs), "options": opts, "config": p.String(), "annotation_batch": annotBatch}
 	settings := fmt.Sprintf("d=%d,r=%s", dist, ratio)
 	ref, refRecs, perr := run("ref", parCfg{MaxCPU: 2, BatchSize: 2000, Pool: 3, Yield: 0, Policy: 1 + simrt.PolLowest})
 	if !rc.cmdMustSucceed(ref, "C13/reference", "obiclean reference run "+strings.Join(opts, " ")) {
@@ -319,6 +326,27 @@ func runC13(rc *RunCtx) {
 	if perr != "" {
 		rc.Violate("C13/unparsable-output", "%s", perr)
 		return
+	}
+	// (0) the counts written on a record are those of its own status map
+	for _, rs := range [][]parsedRec{refRecs, testRecs} {
+		for _, r := range rs {
+			st, _ := r.Annot["obiclean_status"].(map[string]any)
+			cnt := map[string]int{}
+			for _, v := range st {
+				cnt[fmt.Sprint(v)]++
+			}
+			want := map[string]int{"obiclean_headcount": cnt["h"], "obiclean_internalcount": cnt["i"], "obiclean_singletoncount": cnt["s"], "obiclean_samplecount": len(st)}
+			for _, k := range sortedKeys(want) {
+				if v, ok := annotInt(r.Annot[k]); !ok || v != want[k] {
+					rc.Violate("C13/counts-not-those-of-the-status", "obiclean %v (%s): record %s has %s=%v but its obiclean_status is %v", opts, p, r.ID, k, r.Annot[k], st)
+					return
+				}
+			}
+			if h, ok := r.Annot["obiclean_head"].(bool); ok && h != (cnt["h"]+cnt["s"] > 0) {
+				rc.Violate("C13/counts-not-those-of-the-status", "obiclean %v (%s): record %s has obiclean_head=%v but its obiclean_status is %v", opts, p, r.ID, h, st)
+				return
+			}
+		}
 	}
 	// (2) determinism: everything obiclean writes is identical to the sequential reference
 	view := func(rs []parsedRec) map[string]string {
